@@ -550,7 +550,7 @@ MANIFEST = dict(
     'np.arange.',
     note='reals for the chunk law (rounding outside); cos/sin/exp as '
     'uninterpreted functions; numpy arange length rule trusted; RNG stub'
-    ' Concrete data-representation / scale / boundary probes of the real'
+    '. Concrete data-representation / scale / boundary probes of the real'
     ' code (dtype, container and memory-layout variants, argument'
     ' immutability, magnitudes) accompany the symbolic runs; they are'
     ' differential runs, not solver verdicts.',
